@@ -738,6 +738,9 @@ func runOutcome(node *Node, in JRound) (JRoundImpl, []byte) {
 		snap[k] = append([]byte(nil), aos[k].Observation...)
 	}
 	prevSnap := append([]byte(nil), prevBytes...)
+	// an earlier evaluation on this process FAILED on its previous outcome after seeing these very observations
+	// (an abandoned round): no vote of it may leak into the evaluation below
+	node.Plugin.Outcome(context.Background(), ocr3types.OutcomeContext{SeqNr: in.Seq, PreviousOutcome: []byte(`{"AgreedPerformables":17`)}, nil, aos)
 	// libocr's own order: every observation is validated, then Outcome is called with the very same byte slices
 	for _, ao := range aos {
 		node.Plugin.ValidateObservation(context.Background(), ocr3types.OutcomeContext{SeqNr: in.Seq, PreviousOutcome: prevBytes}, nil, ao)
